@@ -168,6 +168,10 @@ impl Op {
   }
 }
 
+pub fn ops_coq(ops: &[Op]) -> String {
+  util::list(ops.iter().map(|o| o.coq()))
+}
+
 pub fn case_coq(cfg: &Cfg, ops: &[Op]) -> String {
   format!("({}, {})", cfg.coq(), util::list(ops.iter().map(|o| o.coq())))
 }
